@@ -76,9 +76,9 @@ class _StubServer:
     display_banner = False
 
 
-def make_request(ip, method, path, headers):
+def make_request(ip, method, path, headers, sock=None):
     # (the HTTP component passes its server; a request without Host header takes its host and port from there)
-    req = Request(StubSock(ip), method, 'http', path, (1, 1), '', Headers(list(headers)), _StubServer())
+    req = Request(sock if sock is not None else StubSock(ip), method, 'http', path, (1, 1), '', Headers(list(headers)), _StubServer())
     return req, Response(req)
 
 
@@ -567,15 +567,22 @@ class SessionWorld:
             sessions_mod.uuid = self._saved
         uuid_stdlib.uuid4 = self._saved4
 
-    def request(self, client, cookie, store=None):
-        """one request through the real component; returns (sid, session content before the write, uuid calls consumed)"""
+    def request(self, client, cookie, store=None, shared=False):
+        """one request through the real component; returns (sid, session content before the write, uuid calls consumed).
+        shared: every request from one address arrives over the same connection (one socket object), as behind a proxy that
+        multiplexes its clients over a keep-alive connection"""
         ip, agent = client
+        sock = None
+        if shared:
+            if not hasattr(self, '_socks'):
+                self._socks = {}
+            sock = self._socks.setdefault(ip, StubSock(ip))
         headers = [('Host', 'a.example')]
         if agent is not None:
             headers.append(('User-Agent', agent))
         if cookie is not None:
             headers.append(('Cookie', '%s=%s' % (COOKIE_NAME, cookie)))
-        req, res = make_request(ip, 'GET', '/', headers)
+        req, res = make_request(ip, 'GET', '/', headers, sock)
         before = self.uuid.calls
         self.m.fire(request_event(req, res), 'web')
         for _ in range(4):
@@ -660,7 +667,7 @@ def run_session(scn):
     try:
         owners = []
         for i, ci in enumerate(scn['owners']):
-            sid, seen, n = w.request(CLIENTS[ci], None, store='secret-%d' % i)
+            sid, seen, n = w.request(CLIENTS[ci], None, store='secret-%d' % i, shared=scn.get('shared', False))
             if sid is None:
                 return ('no-session',), [('harness', 'Sessions did not attach a session')]
             if seen:
@@ -673,7 +680,7 @@ def run_session(scn):
         cookie = cookie_value(scn['cookie'], ref[0], last)
         if cookie is None and scn['cookie'] != 'none':
             return ('inexpressible',), bad
-        sid, seen, n = w.request(last, cookie)
+        sid, seen, n = w.request(last, cookie, shared=scn.get('shared', False))
         # reference: the data visible to this request
         match = [o for o in owners if o[0] == cookie]
         entitled = [o for o in match if o[1] == last]
@@ -713,6 +720,9 @@ def session_scenarios(tier):
         for last in range(nc):
             for kind in COOKIE_KINDS:
                 yield {'owners': [a], 'last': last, 'cookie': kind, 'ref': 0}
+                if CLIENTS[a][0] == CLIENTS[last][0]:
+                    # ... and both requests over one connection (the same socket object)
+                    yield {'owners': [a], 'last': last, 'cookie': kind, 'ref': 0, 'shared': True}
     if tier == 'thorough':
         for a in range(nc):
             for b in range(nc):
